@@ -39,6 +39,10 @@
 (*     parameter name, the operationId + inline response schema (promoted  *)
 (*     to <OperationId>200Response) x kinds plain, multi, sse, ndjson,     *)
 (*     longsig (thorough also manyopt, mixed); operation 2 = short control *)
+(*  S  two spellings of ONE tag inside one operation's tag list (every     *)
+(*     ordered pair of user-accounts / user_accounts / userAccounts /      *)
+(*     UserAccounts / useraccounts / User Accounts), alone and next to an  *)
+(*     operation that uses one of the two spellings (or a third) alone     *)
 (* kinds also: mixed = 200 JSON + 206 application/octet-stream (the        *)
 (* primary response is not streaming: client, Protocol and mock are        *)
 (* coroutines); every `multi` operation has its OWN json body model.       *)
@@ -105,12 +109,15 @@ Rend(x) == IF x % 2 = 0 THEN "json" ELSE "yaml"
 
 S(n) == ToString(n)
 \* tsel, ksel : Seq of indices (length n); sp slot pattern; s id shape; g strategy; r rendering
-MkDoc(id, sp, tsel, ksel, s, g, r) ==
+\* tls : Seq of tag lists (length n); MkDoc takes indices into TL instead
+MkDocT(id, sp, tls, ksel, s, g, r) ==
   [id |-> id, strategy |-> Strategies[g], rendering |-> r,
-   ops |-> [j \in 1..Len(tsel) |->
+   ops |-> [j \in 1..Len(tls) |->
              LET m == Slots[sp][j][1]  p == Slots[sp][j][2] IN
-             [oid |-> j, method |-> m, path |-> Paths[p], tags |-> TL[tsel[j]], keys |-> KeysOf(TL[tsel[j]]),
+             [oid |-> j, method |-> m, path |-> Paths[p], tags |-> tls[j], keys |-> KeysOf(tls[j]),
               opid |-> OpId(IdShapes[s], j, m, p), idshape |-> IdShapes[s], kind |-> KindFor(m, ksel[j]), decos |-> <<>>]]]
+
+MkDoc(id, sp, tsel, ksel, s, g, r) == MkDocT(id, sp, [j \in 1..Len(tsel) |-> TL[tsel[j]]], ksel, s, g, r)
 
 Rot(x, n) == (x % n) + 1
 
@@ -220,9 +227,21 @@ DocL(u) ==
       deco == CASE w = 1 -> <<"long_model_" \o S(L)>> [] w = 2 -> <<"long_param_" \o S(L)>> [] w = 3 -> <<"inline_response">> IN
   [base EXCEPT !.ops[1].decos = deco, !.ops[1].opid = IF w = 3 THEN LongId(L) ELSE @]
 
+\* tag LISTS are sequences over spelling classes: two spellings of ONE tag inside one operation's list (case and separator
+\* variants that sanitise to different words), every ordered pair; w = 0: alone; w = 1 / 2: next to an operation that uses
+\* the first / the second spelling alone (placed after or before it, rotating); w = 3: next to a third spelling (thorough)
+Spell == <<"user-accounts", "user_accounts", "userAccounts", "UserAccounts", "useraccounts", "User Accounts">>
+IdxS(ws) == {I("s", <<v[1], v[2], w>>) : v \in {v \in (1..Len(Spell)) \X (1..Len(Spell)) : v[1] # v[2]}, w \in ws}
+DocS(u) ==
+  LET a == u[1]  b == u[2]  w == u[3]
+      pair == <<Spell[a], Spell[b]>>
+      other == CASE w = 1 -> <<Spell[a]>> [] w = 2 -> <<Spell[b]>> [] OTHER -> <<Spell[CHOOSE c \in 1..Len(Spell) : c \notin {a, b} /\ \A e \in 1..(c - 1) : e \in {a, b}]>>
+      tls == IF w = 0 THEN <<pair>> ELSE IF (a + b + w) % 2 = 0 THEN <<pair, other>> ELSE <<other, pair>> IN
+  MkDocT("s" \o S(a) \o "x" \o S(b) \o "x" \o S(w), Rot(a + b, NS), tls, [j \in 1..Len(tls) |-> 1], Rot(a + w, 2), Rot(a + b + w, 3), Rend(a + 2 * b + w))
+
 Plain(i) ==
   CASE i.f = "a" -> DocA(i.x) [] i.f = "b" -> DocB(i.x) [] i.f = "c" -> DocC(i.x) [] i.f = "d" -> DocD(i.x)
-    [] i.f = "e" -> DocE(i.x) [] i.f = "f" -> DocF2(i.x) [] i.f = "g" -> DocF3(i.x) [] i.f = "h" -> DocH(i.x) [] i.f = "p" -> DocP(i.x) [] i.f = "v" -> DocV(i.x) [] i.f = "x" -> DocX(i.x) [] i.f = "z" -> DocX2(i.x) [] i.f = "l" -> DocL(i.x)
+    [] i.f = "e" -> DocE(i.x) [] i.f = "f" -> DocF2(i.x) [] i.f = "g" -> DocF3(i.x) [] i.f = "h" -> DocH(i.x) [] i.f = "p" -> DocP(i.x) [] i.f = "v" -> DocV(i.x) [] i.f = "x" -> DocX(i.x) [] i.f = "z" -> DocX2(i.x) [] i.f = "l" -> DocL(i.x) [] i.f = "s" -> DocS(i.x)
 Doc(i) == IF i.bare THEN [Plain(i) EXCEPT !.rendering = "yamlbare", !.id = "y" \o @] ELSE Plain(i)
 
 \* yamlbare: a slice of A and B rendered with unquoted status keys
@@ -231,8 +250,8 @@ IdxG(full) ==
   \cup {[i EXCEPT !.bare = TRUE] : i \in {i \in IdxB(1) : i.x[1] # i.x[2] /\ (i.x[1] + 3 * i.x[2]) % (IF full THEN 3 ELSE 16) = 0}}
 
 Family ==
-  CASE Tier = "quick"    -> IdxA(FALSE) \cup IdxB(1) \cup IdxC(32, 1) \cup IdxD(2, 1) \cup IdxE({1}) \cup IdxF2({1, 3}) \cup IdxG(FALSE) \cup IdxH({3}, {1}) \cup IdxP(4) \cup IdxV({1, 2, 4}, {1, 2, 5}) \cup IdxX({1, 2}, {0}) \cup IdxL({64, 80, 96, 112, 128, 160}, {1, 2, 3, 4, 7})
-    [] Tier = "thorough" -> IdxA(TRUE) \cup IdxB(6) \cup IdxC(2, 4) \cup IdxD(1, 12) \cup IdxE(1..NS) \cup IdxF2(1..NS) \cup IdxF3 \cup IdxG(TRUE) \cup IdxH({3, 4}, {1, 2}) \cup IdxP(1) \cup IdxV({1, 2, 4, 6, 12, 16, 17}, {1, 2, 5, 6}) \cup IdxX({1, 2}, {1, 2, 3}) \cup IdxX2 \cup IdxL({L \in 48..168 : L % 8 = 0}, {1, 2, 3, 4, 6, 7, 8})
+  CASE Tier = "quick"    -> IdxA(FALSE) \cup IdxB(1) \cup IdxC(32, 1) \cup IdxD(2, 1) \cup IdxE({1}) \cup IdxF2({1, 3}) \cup IdxG(FALSE) \cup IdxH({3}, {1}) \cup IdxP(4) \cup IdxV({1, 2, 4}, {1, 2, 5}) \cup IdxX({1, 2}, {0}) \cup IdxL({64, 80, 96, 112, 128, 160}, {1, 2, 3, 4, 7}) \cup IdxS({0, 1, 2})
+    [] Tier = "thorough" -> IdxA(TRUE) \cup IdxB(6) \cup IdxC(2, 4) \cup IdxD(1, 12) \cup IdxE(1..NS) \cup IdxF2(1..NS) \cup IdxF3 \cup IdxG(TRUE) \cup IdxH({3, 4}, {1, 2}) \cup IdxP(1) \cup IdxV({1, 2, 4, 6, 12, 16, 17}, {1, 2, 5, 6}) \cup IdxX({1, 2}, {1, 2, 3}) \cup IdxX2 \cup IdxL({L \in 48..168 : L % 8 = 0}, {1, 2, 3, 4, 6, 7, 8}) \cup IdxS({0, 1, 2, 3})
 
 Init == sc \in Family /\ done = FALSE
 Emit == ~done /\ done' = TRUE /\ UNCHANGED sc /\ PrintT("SCEN " \o ToJson(Doc(sc)))
